@@ -329,7 +329,7 @@ def r15_1(ctx):
                     ctx.ob("%s:unclassified:%s" % (short, c), False, b.where(b.term_loc(bb)),
                            "callee `%s` is not in the census tables (cannot tell whether it may panic)" % c,
                            reason="shape-not-recognised")
-    ctx.floor("panic sites in cone(from_fen)", nsites, 30)
+    ctx.floor("panic sites in cone(from_fen)", nsites, 15)
 
 
 def _unwrap_label(arg):
